@@ -54,8 +54,10 @@ mod parsing {
 
     pub fn parse_mode(pattern: &str, for_dir: bool) -> Result<u32, Box<dyn Error>> {
         let mode = if pattern.contains(|c: char| c.is_ascii_digit()) {
-            // (The numeric parser would also take an operator and blanks.)
-            if !pattern.bytes().all(|b| (b'0'..=b'7').contains(&b)) {
+            // Octal digits, or an operator and octal digits ("=755"). (The
+            // numeric parser would also take blanks.)
+            let digits = pattern.strip_prefix(['+', '-', '=']).unwrap_or(pattern);
+            if digits.is_empty() || !digits.bytes().all(|b| (b'0'..=b'7').contains(&b)) {
                 return Err(From::from(format!("invalid mode '{pattern}'")));
             }
             parse_numeric(0, pattern, for_dir)?
